@@ -96,5 +96,7 @@ def run(ck: Check):
                    "clock": [], "atom": "line", "exc_class": "TestRaised", "load": True,
                    "session": [s_["file0"].hex() for s_ in steps], "note": "same objects for all runs; test = family " + str(i % len(fam2))}
             make_oracle_c03(lambda ctx, run, f=f: f)(ck, ctx, run_)
+    from scale import order_dependent_minimality
+    order_dependent_minimality(ck)
     return ck.finish(level="proof", rule=RULE, assumptions=[
         "atoms are non-empty (C06) so every candidate is strictly shorter than its basis"])
